@@ -122,14 +122,16 @@ type CliWorld struct {
 	closeOffered bool
 	closed       bool
 
-	online       func(w *CliWorld) *Violation
-	Probes       map[string]int
-	Harness      string
-	ExtraViol    []*Violation
-	settingsSent int
-	winUpdates   []*Frame
-	maxOpenLimit []int64
-	GoAwaySent   []GoAwaySent
+	online        func(w *CliWorld) *Violation
+	Probes        map[string]int
+	Harness       string
+	ExtraViol     []*Violation
+	settingsSent  int
+	winUpdates    []*Frame
+	maxOpenLimit  []int64
+	GoAwaySent    []GoAwaySent
+	FrameSizeViol *Violation
+	allowedTable  int64
 }
 
 // NewCliWorld builds the world and starts the handshake. Inside the bubble, after NewSim.
@@ -148,6 +150,7 @@ func NewCliWorld(sim *Sim, plan *CliPlan) *CliWorld {
 	w.s2c = NewDir("s2c", plan.Srv.LinkCap)
 	w.conn = &Conn{Name: "cli", R: w.s2c, W: w.c2s}
 	w.dec = hpack.NewDecoder(4096, func(f hpack.HeaderField) { w.decOut = append(w.decOut, f) })
+	w.allowedTable = 4096
 	w.connGranted = 65535 + int64(plan.Srv.ConnWindowBoost)
 	for i := range plan.Lanes {
 		w.lanes = append(w.lanes, &laneState{idx: i, lane: &plan.Lanes[i]})
@@ -197,6 +200,10 @@ func (w *CliWorld) sendSettings(kv [][2]uint32) {
 		case 1:
 			v.hasTable, v.table = true, int64(s[1])
 		}
+	}
+	if v.hasTable && v.table >= w.allowedTable {
+		w.allowedTable = v.table
+		w.dec.SetAllowedMaxDynamicTableSize(uint32(v.table))
 	}
 	w.setVals = append(w.setVals, v)
 	w.settingsSent++
@@ -390,6 +397,10 @@ func (w *CliWorld) srvReceive() {
 }
 
 func (w *CliWorld) onSrvFrame(f *Frame) {
+	if int64(f.Len) > w.permissiveMaxFrame() && w.FrameSizeViol == nil {
+		w.FrameSizeViol = &Violation{Property: "C18", Rule: "frame-over-peer-max", Sig: "frame-over-peer-max/" + ftName(f.Type),
+			Detail: fmt.Sprintf("%s frame #%d with a payload of %d bytes; the server's SETTINGS_MAX_FRAME_SIZE is %d (most permissive reading)", ftName(f.Type), f.Seq, f.Len, w.permissiveMaxFrame())}
+	}
 	switch f.Type {
 	case FSettings:
 		if f.Ack {
@@ -404,6 +415,16 @@ func (w *CliWorld) onSrvFrame(f *Frame) {
 				}
 				if v.hasStreams {
 					w.ackedStreams = v.streams
+				}
+				if v.hasTable && v.table < w.allowedTable {
+					m := v.table
+					for _, u := range w.setVals[w.acked+1:] {
+						if u.hasTable && u.table > m {
+							m = u.table
+						}
+					}
+					w.allowedTable = m
+					w.dec.SetAllowedMaxDynamicTableSize(uint32(m))
 				}
 			}
 			w.acked++
